@@ -160,6 +160,11 @@ func genTransitions(r *Repo, l *Lean) {
 				}
 			case transStatusKinds[flKind(e)]:
 				k, n := flSplitKey(e.Key)
+				if k == "cmp" && strings.HasPrefix(n, "!=") {
+					// the site table says WHICH constant the status is compared with; the polarity of the
+					// test is in the path facts (harmless seed C15-H2 De-Morganed write's refusal test)
+					n = "==" + n[2:]
+				}
 				for _, o := range owners(rt.Name, e) {
 					statusRows = append(statusRows, []string{o, k, n, e.Y})
 				}
